@@ -130,6 +130,15 @@ def directed_cases(tier):
                     break
     finally:
         common.rmtree(top)
+    # every file-system operation of a mirroring download / of an upload fails in turn (ENOSPC),
+    # also for archives that are configured not to fail the build (`nofail`)
+    for kind, nofail in (("mirror", True), ("mirror", False), ("upload", True)):
+        out.append({"actors": [{"kind": kind, "name": kind[0] + "0", "size": 20013, "tag": "e%s%d" % (kind[0], nofail), "nfiles": 2,
+                                "nofail": nofail, "modes": False},
+                               {"kind": "reader", "name": "r1"}],
+                    "sched_seed": 11, "stickiness": 0.9, "decisions": None, "prepopulated": False, "stride": 1, "rounds": 1,
+                    "faults": [], "enumerate_kill": kind[0] + "0", "enumerate_fault": "errno28", "enum_max": 60, "enum_offset": 0,
+                    "directed": "errno at every operation of a %s (nofail=%s)" % (kind, nofail)})
     return out
 
 # ---------------------------------------------------------------------------
